@@ -86,6 +86,23 @@ func CalculateDuration(deposit sdk.Coin, flowRate int64) int64 {
 	return 0
 }
 
+// MaxStreamTime is the latest deposit zero time a stream can have: the last second that the
+// protobuf Timestamp encoding used for storage can represent (9999-12-31T23:59:59Z).
+var MaxStreamTime = time.Unix(253402300799, 0).UTC()
+
+// AddSeconds returns t + seconds, saturating at MaxStreamTime. It works on Unix seconds
+// because time.Duration (int64 nanoseconds) wraps around for durations beyond ~292 years,
+// which would move the deposit zero time into the past.
+func AddSeconds(t time.Time, seconds int64) time.Time {
+	if seconds <= 0 {
+		return t
+	}
+	if t.Unix() >= MaxStreamTime.Unix() || seconds >= MaxStreamTime.Unix()-t.Unix() {
+		return MaxStreamTime
+	}
+	return time.Unix(t.Unix()+seconds, int64(t.Nanosecond())).UTC()
+}
+
 func CalculateAmountToClaim(
 	nowTime,
 	depositZeroTime,
